@@ -12,6 +12,7 @@ type Cooler struct {
 
 func NewCooler() *Cooler {
 	svc := Cooler{}
+	svc.HeaterCooler = NewHeaterCooler()
 
 	svc.CoolingThresholdTemperature = characteristic.NewCoolingThresholdTemperature()
 	svc.AddCharacteristic(svc.CoolingThresholdTemperature.Characteristic)
